@@ -2,6 +2,7 @@
 from __future__ import annotations
 
 import ast
+import re
 
 from sa import match as M, norm, pc as PC, prog, rulekit as K
 from sa.cfg import EXPLICIT, cfg_of
@@ -149,6 +150,17 @@ def run(chk):
             chk.ok("C16.overwrite", stif, "the cached built morsel is dropped together with the store")
         else:
             chk.violation("C16.overwrite", stif, K.short(st), "self._morsel_cache[key].pop(name, None)", "a replaced cookie keeps being sent with its old cached value")
+    # a re-issued cookie replaces the stored one unless it is the same cookie in *every* attribute: the store may be skipped only on a
+    # whole-Morsel comparison (Morsel.__eq__ covers value, coded value and all attributes), never on a comparison of selected fields
+    lp_ = next(iter(K.loop_ancestors(st)), None)
+    glits = [l for c in PC.pc(st, stop=lp_, raw=True) for l in c] if lp_ is not None else []
+    fieldwise = [l for l in glits if re.search(r"\b(cookie|stored)\.(value|coded_value|key)\b", l.text) or re.search(r"\bcookie\[", l.text)]
+    whole = [l for l in glits if re.search(r"(!=|==) cookie\b|\bcookie (!=|==)", l.text)]
+    if fieldwise:
+        chk.violation("C16.overwrite", st, K.short(st), "if self._cookies[key].get(name) != cookie",
+                      f"the stored cookie is kept when `{fieldwise[0].text}` says it is `the same`: a cookie re-issued with the same value but other attributes (`sid=abc; Path=/` then `sid=abc; Path=/; Secure`) is treated as a no-op, the old, looser attributes stay in the jar and the cookie keeps going out over plain http")
+    elif whole or not [l for l in glits if "cookie" in l.text]:
+        chk.ok("C16.overwrite", st, "the stored morsel is replaced unless the new one equals it as a whole (value and every attribute)")
     # host-only flag is decided after the acceptance test (a refused response cannot change it)
     ho = [n for n in ast.walk(uc.node) if isinstance(n, ast.Call) and norm.raw(n.func) in ("self._host_only_cookies.add", "self._host_only_cookies.discard")]
     dmn = dm[0][0].lineno if dm else 0
